@@ -247,4 +247,3 @@ func totalLen(w *world) int {
 	}
 	return n
 }
-
